@@ -18,7 +18,7 @@ RULE = ("cases: every (degree 1..8, elevation count 1..4) pair x polygon class {
 ASSUMPTIONS = ["exact de Casteljau in Fractions (nvmon.ref.bernstein_point)", "coordinates |x| <= 1e3, weights in [0.2,5]"]
 FLOORS = {'quick': {'elev-identity': 3000, 'endpoints': 300, 'reduce-inverts': 200, 'multi-step': 100, 'reject': 60},
           'thorough': {'elev-identity': 30000, 'reduce-inverts': 2000}}
-MANDATORY_TAGS = ['deg8', 'deg1', 'num4', 'cls:homogeneous', 'cls:rows', 'cls:cartesian']
+MANDATORY_TAGS = ['deg8', 'deg1', 'num4', 'cls:homogeneous', 'cls:rows', 'cls:cartesian', 'cls:curve-level']
 TECHNIQUE = ("runtime monitoring: exact polynomial-identity oracle (de Casteljau in rational arithmetic) on every "
              "degree_elevation / degree_reduction call made by an enumerating workload")
 LEVEL_TEXT = ("Each call is decided completely for its input (identity of two polynomials checked at more points than their "
@@ -39,6 +39,10 @@ def gen(rng, tier, shard, nshards):
                            'seed': rng.randrange(1 << 30)}
     for p in range(0, 9):
         yield {'kind': 'reject', 'p': p, 'seed': rng.randrange(1 << 30)}
+    for rep in range(reps * 16):
+        if rep % nshards == shard:
+            yield {'kind': 'curve', 'p': rng.randint(1, 6), 't': rng.randint(1, 3), 'rational': rng.random() < 0.5,
+                   'dim': rng.choice([2, 3]), 'seed': rng.randrange(1 << 30)}
 
 
 def polygon(rng, p, cls, dim):
@@ -76,6 +80,8 @@ def check(case, ctx):
     rng = random.Random(case['seed'])
     if case['kind'] == 'reject':
         return check_reject(case, ctx, rng)
+    if case['kind'] == 'curve':
+        return check_curve(case, ctx, rng)
     p, t, cls, dim = case['p'], case['t'], case['cls'], case['dim']
     ctx.tag('deg%d' % p, 'num%d' % t, 'cls:' + ('cartesian' if cls in ('lattice', 'big') else cls))
     ctx.nontriv(p >= 2 or t >= 2)
@@ -174,3 +180,32 @@ def check_reject(case, ctx, rng):
     for q in (0, 1):
         Pq = polygon(rng, q, 'cartesian', 2)
         must_raise(lambda: helpers.degree_reduction(q, Pq), 'reject/degree<2-accepted', 'degree_reduction accepted degree %d' % q)
+
+
+def check_curve(case, ctx, rng):
+    """the same Bezier polygons (Cartesian / homogeneous) pushed through the curve-level route operations.degree_operations"""
+    from geomdl import operations
+    from .. import gen as G
+    p, t = case['p'], case['t']
+    ctx.tag('deg%d' % p, 'num%d' % t, 'cls:curve-level')
+    ctx.nontriv(True)
+    sd = G.rand_shape(rng, 1, rational=case['rational'], mindeg=p, maxdeg=p, maxextra=0, clamped_only=True, dim=case['dim'],
+                      pcls='uniform', wcls='uniform')
+    c = G.build(sd)
+    P0 = G.hom_pts_of(c)
+    S = scale(P0)
+    operations.degree_operations(c, [t])
+    P1 = G.hom_pts_of(c)
+    if not ctx.check(c.degree == p + t and len(P1) == p + t + 1, 'curve-level/elev-size', 'degree_operations(+%d) on a degree-%d Bezier curve: '
+                     'degree %r, %d control points' % (t, p, c.degree, len(P1)), what='size'):
+        return
+    if not same_curve(ctx, P0, P1, 'elev-identity', 'curve-level/elev-curve-changed', 'degree_operations(+%d) changed a %s Bezier curve'
+                      % (t, 'rational' if case['rational'] else 'non-rational')):
+        return
+    for _ in range(t):
+        operations.degree_operations(c, [-1])
+    P2 = G.hom_pts_of(c)
+    ok = c.degree == p and len(P2) == len(P0) and all(len(a) == len(b) and all(abs(x - y) <= 1e-7 * S for x, y in zip(a, b)) for a, b in zip(P2, P0))
+    ctx.check(ok, 'curve-level/reduce-not-inverse', 'elevating a %s degree-%d Bezier curve by %d and reducing %d times through '
+              'degree_operations does not return the original (homogeneous) control points' % ('rational' if case['rational'] else 'non-rational', p, t, t),
+              what='reduce-inverts', P0=P0, P2=P2)
